@@ -278,9 +278,16 @@ theorem C18_terminates {S S' : Sys} {sched : List (Nat × Nat × Nat)} {i : Nat}
 theorem C18_program_edges_allowed : ∀ e ∈ programEdges, edgeAllowed e.1 e.2 false = true := by decide
 
 /-- the nestings Layer B's atomic actions and lock ownership rest on are nestings of the table (hence checked against
-    the lock log of the real crate on every run), and the table performs no other nesting -/
+    the lock log of the real crate on every run), and the table performs no other nesting. Since fix 36c87dc the list
+    includes `kwShard → storeShard`: the sweeper's `remove_if` reads the stored value under the key id's shard guard of
+    the weight ledger, and Layer B's `.kwRemove` action (the check `unexpiredWithId` and the removal from the ledger as
+    ONE action) rests on exactly that nesting. -/
 theorem C18_atomicity_rests_on_program_edges :
     (∀ e ∈ atomicityRests, e ∈ programEdges) ∧ (∀ e ∈ programEdges, e ∈ atomicityRests) := by decide
+
+/-- the new nesting is performed by the table, is allowed by the discipline, and is one the atomic actions rest on -/
+example : (Cls.kwShard, Cls.storeShard) ∈ programEdges ∧ edgeAllowed .kwShard .storeShard false = true ∧
+    (Cls.kwShard, Cls.storeShard) ∈ atomicityRests := by decide
 
 /-! ## Non-vacuity (`exampleSys`, `sampleThread`, `badSys`, `badUpSys` are defined in `Lemmas/Locks.lean`) -/
 
